@@ -169,6 +169,12 @@ Definition next_ev (w : world) : (N * N) * list (N * N) :=
   end.
 
 Inductive wres := WOk (n : N) | WFail | WCancel.
+(* kinds 4 and 5: a SLOW write — `amt` ms pass inside the call, then one byte (4) resp. the whole buffer (5) is accepted *)
+Definition slow_write (w1 : world) (pre : text) (bs : bytes) (amt n : N) : world * wres :=
+  let t := w_now w1 + amt in
+  let w2 := upd_log (upd_now w1 t) (s2t "t " ++ show_N t) in
+  let acc := takeN n bs in
+  (broker_feed (upd_wire (upd_log w2 (pre ++ show_N n ++ s2t " " ++ hex acc)) (w_wire w2 ++ acc)) acc, WOk n).
 Definition io_write (bs : bytes) (w : world) : world * wres :=
   let len := lenN bs in
   if N.eqb len 0 then (upd_log w (s2t "w 0 0 "), WOk 0) else
@@ -178,6 +184,8 @@ Definition io_write (bs : bytes) (w : world) : world * wres :=
   if N.eqb k 1 then (upd_log w1 (pre ++ s2t "fail"), WFail)
   else if N.eqb k 2 then (upd_log w1 (pre ++ s2t "zero"), WOk 0)
   else if N.eqb k 3 then (upd_log w1 (pre ++ s2t "drop"), WCancel)
+  else if N.eqb k 4 then slow_write w1 pre bs amt 1
+  else if N.eqb k 5 then slow_write w1 pre bs amt len
   else
     let n := N.min (N.max amt 1) len in
     let acc := takeN n bs in
